@@ -4,8 +4,10 @@ import ComposeVerif.Model.Marshal
 # The self-decoding numeric types on a *string* source (a value that arrived through a variable)
 
 No cast row and no `cast` hook applies to `DeviceCount`, `NanoCPUs` and `UnitBytes`: their own `DecodeMapstructure`
-reads the string.  These are the readings (types/device.go, types/cpus.go, types/bytes.go); they are *decimal*, unlike
-the repaired casters — which is what the recorded findings `typed:*:{devicecount,nanocpus,bytes}` are about.
+reads the string.  These are the readings (types/device.go, types/cpus.go, types/bytes.go).  `DeviceCount` and
+`UnitBytes` read *decimal*, unlike the repaired casters — which is what the recorded findings
+`typed:*:{devicecount,bytes}` are about; `NanoCPUs` reads like the float casters since the round-5 repair
+(it calls `utils.ParseYAMLFloat(_, 64)`, the function `toFloat` of loader/interpolate.go calls).
 `UnitBytes` reuses C09's model of `units.RAMInBytes` (`CV.Marshal.decode_UnitBytes`, read-only).
 -/
 namespace CV.Interp
@@ -15,9 +17,11 @@ open CV
 def decodeDeviceCount (s : String) : Option Int :=
   if String.ofList (s.toList.map Char.toLower) = "all" then some (-1) else parseIntDecimal s.toList
 
-/-- `NanoCPUs.DecodeMapstructure` on a string: `strconv.ParseFloat(v, 64)` — the raw parser, an opaque parameter
-    (not the YAML-like reading of the repaired `toFloat`) -/
-def decodeNanoCPUs (parseFloat : String → Option String) (s : String) : Option String := parseFloat s
+/-- `NanoCPUs.DecodeMapstructure` on a string (round 5, after `fix:` 3b56c47 / c708a21): `utils.ParseYAMLFloat(v, 64)` —
+    the very call `toFloat` makes (YAML integer spellings first, then `strconv.ParseFloat`; `Model/InterpFloat.lean`), i.e. the
+    64-bit component of the opaque float parser; the result is then narrowed to `float32` by the conversion
+    `NanoCPUs(f)` (the harness renders both sides through `float32`) -/
+def decodeNanoCPUs (fp : FloatParser) (s : String) : Option String := fp.f64 s
 
 /-- `UnitBytes.DecodeMapstructure` on a string: `units.RAMInBytes` (C09's model) -/
 def decodeUnitBytes (s : String) : CV.Marshal.Out := CV.Marshal.decode_UnitBytes (.str s)
